@@ -32,6 +32,19 @@ def gen_structure(rng, shape, tier):
             ivs.append([x, x + w])
             x += w + pbx.dyadic(rng, 0.125, 1)
         rng.shuffle(ivs)
+    elif shape == "near":
+        # distinct focal elements that lie very close together at a large (or tiny) magnitude: neighbours differ by 1e-7 .. 5e-6 of their size
+        c = rng.choice([293.15, 1000.0, 101325.0, 2.5e6, 3e-9]) * (1 + pbx.dyadic(rng, 0, 1))
+        w = c * rng.choice([1e-4, 1e-2, 0.3])
+        ivs, a, b = [], c, c + w
+        for _ in range(n):
+            ivs.append([a, b])
+            a += c * rng.choice([1e-7, 1e-6, 5e-6])
+            b += c * rng.choice([1e-7, 1e-6, 5e-6])
+        rng.shuffle(ivs)
+    elif shape == "scaled":
+        sc = 2.0 ** rng.choice([-30, -20, 17, 30])
+        ivs = [[(a := sc * pbx.dyadic(rng, -4, 4, bits=4)), a + sc * pbx.dyadic(rng, 0, 3, bits=4)] for _ in range(n)]
     elif shape == "repeated":
         base = [[(a := pbx.dyadic(rng, -4, 4)), a + pbx.dyadic(rng, 0, 3)] for _ in range(max(1, n // 3))]
         ivs = [list(rng.choice(base)) for _ in range(n)]
@@ -166,11 +179,11 @@ def body(chk):
     pr = chk.do_proofs()
     rng = chk.rng
     n_cases = 60 if chk.tier == "quick" else 800
-    shapes = ["overlapping", "nested", "disjoint", "repeated"]
+    shapes = ["overlapping", "nested", "disjoint", "repeated", "near", "scaled"]
     cases, outs = [], []
     for i in range(n_cases):
-        ivs, masses, tag = gen_structure(rng, shapes[i % 4], chk.tier)
-        route = ["stacking", "dss", "mixture"][i % 3]
+        ivs, masses, tag = gen_structure(rng, shapes[i % 6], chk.tier)
+        route = ["stacking", "dss", "mixture"][(i // 6 + i) % 3]
         o = run_stack(ivs, masses, route)
         cases.append((ivs, masses, tag, route))
         outs.append(o)
